@@ -3,8 +3,9 @@ EXTENDS Auth, Json
 CONSTANTS Depth
 VARIABLE hist
 Pick(S) == RandomElement(S)
-VStr(v) == IF v = 1 THEN "1" ELSE "2"
-CounterStr(r, c, v) == "cp-" \o r \o "-" \o c \o "-v" \o VStr(v)
+VStr(v) == IF v = 1 THEN "1" ELSE IF v = 2 THEN "2" ELSE "3"
+(* version 3 is an address several relayers share on a chain (nothing forbids registering the same counterparty address twice) *)
+CounterStr(r, c, v) == IF v = 3 THEN "cp-any-" \o c \o "-v3" ELSE "cp-" \o r \o "-" \o c \o "-v" \o VStr(v)
 AllAccts == {"r1", "r2", "tss", "out"}
 AllChains == {"one", "two", "tss"}
 AllMethods == {"setSequence", "setAckStatus", "setChainName", "sendPacketFeeToRelayer", "packet.onRecvPacket", "OnAcknowledgePacket",
@@ -21,7 +22,7 @@ MNext ==
        \/ w <= 3 /\ \E cs \in {Pick((SUBSET Chains) \ {{}})}, v \in {Pick(Vers)} : RegisterEff(a, cs, v) /\ last' = [act |-> "Register", res |-> "ok", r |-> a, chains |-> SetToSeq(cs), v |-> v]
        (* the TSS account (re-)registered for the TSS chain; re-registrations of an account for the SAME chains with the other address *)
        \/ w = 4 /\ \E v \in {Pick(Vers)} : RegisterEff(TssAcct, {TssChain}, v) /\ last' = [act |-> "Register", res |-> "ok", r |-> TssAcct, chains |-> <<TssChain>>, v |-> v]
-       \/ w = 21 /\ reg[a] # {} /\ RegisterEff(a, reg[a], 3 - ver[a]) /\ last' = [act |-> "Register", res |-> "ok", r |-> a, chains |-> SetToSeq(reg[a]), v |-> 3 - ver[a]]
+       \/ w = 21 /\ reg[a] # {} /\ \E nv \in {IF ver[a] = 1 THEN 2 ELSE 1} : RegisterEff(a, reg[a], nv) /\ last' = [act |-> "Register", res |-> "ok", r |-> a, chains |-> SetToSeq(reg[a]), v |-> nv]
        \/ w \in {5, 6, 7} /\ UpdateEff(a, c) /\ last' = [act |-> "Update", res |-> Res(UpdateOK(a, c)), signer |-> a, chain |-> c]
        \/ w \in {8, 9, 10} /\ \E aa \in {IF Pick(1..2) = 1 THEN TssAcct ELSE a}, cc \in {IF Pick(1..3) > 1 THEN TssChain ELSE c},
                                  m \in {IF Pick(1..2) = 1 THEN "none" ELSE IF Pick(1..4) = 1 THEN "malformed" ELSE Pick(Methods)} :
